@@ -267,3 +267,75 @@ Theorem wf_step_noob_partial : forall ml gf cl cf inst base o,
   noob (exec_op ml gf cl cf inst base).
 Proof. exact WfTieFacts.wf_step_noob_lemma. Qed.
 Print Assumptions wf_step_noob_partial.
+
+(* ---------------------------------------------------------------------------------------------
+   CC: a transcription of compile.go on a fragment (coq/CC/CompModel.v), tied to the real compiler
+   on every run (frag_tie in VMX/VmCases.v), and what is proved about it.
+
+   The full statement - NOT proved. It needs, besides what follows, (i) the composition of the
+   operand lemmas into binary/unary operations, statements and chunks against isem and (ii) the
+   agreement of the reference evaluator with the direct semantics prun on the fragment. *)
+From GL Require Import CC.CompModel CC.FragSem.
+From GL Require CC.CompFactsVM CC.CompFacts.
+
+Definition frag_compile_correct : Prop :=
+  forall b p, in_frag b = true -> compile_frag b = Some p ->
+  exists n, forall fuel, (n <= fuel)%nat ->
+    is_skip (outcome_of (Run.run_program fuel no_devs b)) = false ->
+    outcome_of_vfin (run_proto fuel p) = outcome_of (Run.run_program fuel no_devs b).
+
+(* Back half, proved in full: the VM model runs ANY straight-line main chunk made of the
+   fragment's opcodes (LOADK LOADBOOL LOADNIL MOVE ADD..POW UNM NOT RETURN), with the MOVE runs
+   merged into MOVEN words as patchCode does, exactly as the register-file semantics isem says:
+   same returned values, or the arithmetic error positioned at the faulting instruction's line. *)
+Theorem vm_runs_isem_partial : forall ul consts nregs fuel,
+  0 <= nregs -> Forall (fun wl => 0 <= fst wl < 2 ^ 32) ul -> (length ul + 2 <= fuel)%nat ->
+  match isem_code consts ul [] with
+  | CRet vs => exists s', run_proto fuel (CompFactsVM.frag_proto ul consts nregs) = VFinOk vs s' /\ vtrace s' = []
+  | CFault ln => exists s', run_proto fuel (CompFactsVM.frag_proto ul consts nregs) = VFinErr (VFault 2 ln) s' /\ vtrace s' = []
+  | _ => True
+  end.
+Proof. exact CompFactsVM.vm_runs_isem_lemma. Qed.
+Print Assumptions vm_runs_isem_partial.
+
+(* Front half, partial: the leaves of expressions (literals, locals, parentheses) compile to one
+   instruction that leaves pev's value in the target register, keeps the registers below it, extends
+   the constant table only at its end, and has the shape the propagation peephole looks for. *)
+Theorem frag_expr_leaf_correct_partial : forall e locals ln reg ec s inc s',
+  CompFacts.expr_leaf locals e = true -> cs_locals s = locals -> cs_regtop s = len locals ->
+  len locals <= reg -> 0 <= reg -> reg + edepth e < 256 -> len locals <= 256 ->
+  savereg ec reg = reg -> len (cs_consts s) <= 262144 ->
+  compileExpr ln reg e ec s = Some (inc, s') ->
+  inc = 1 /\ CompFacts.expr_ok s s' locals ln reg e.
+Proof. exact CompFacts.compileExpr_leaf_ok. Qed.
+Print Assumptions frag_expr_leaf_correct_partial.
+
+(* PropagateKMV / PropagateMV are sound: after compiling an operand, the (possibly popped) code
+   plus the RK operand they return denote the operand's value, and later code that only writes
+   registers at or above the returned reg cannot disturb it. *)
+Theorem propagateKMV_sound : forall s s1 locals ln reg e save reg' s2,
+  CompFacts.expr_ok s s1 locals ln reg e -> len locals <= reg -> 0 <= reg < 256 -> len locals <= 256 ->
+  propagateKMV reg 1 s1 = Some ((save, reg'), s2) ->
+  CompFacts.operand_ok s s2 locals ln reg e save reg'.
+Proof. exact CompFacts.kmv_ok. Qed.
+Print Assumptions propagateKMV_sound.
+
+Theorem propagateMV_sound : forall s s1 locals ln reg e save reg' s2,
+  CompFacts.expr_ok s s1 locals ln reg e -> len locals <= reg -> 0 <= reg < 256 -> len locals <= 256 ->
+  propagateMV reg 1 s1 = Some ((save, reg'), s2) ->
+  CompFacts.operand_ok s s2 locals ln reg e save reg'.
+Proof. exact CompFacts.mv_ok. Qed.
+Print Assumptions propagateMV_sound.
+
+(* ConstIndex: the index it returns holds the value, the table only grows at its end *)
+Theorem constIndex_spec : forall v s i s', len (cs_consts s) <= 262144 -> constIndex v s = Some (i, s') ->
+  len (cs_consts s') <= 262144 /\ 0 <= i < 262144 /\ zth (cs_consts s') i = Some v /\
+  CompFacts.prefix_of (cs_consts s) (cs_consts s') /\
+  cs_code s' = cs_code s /\ cs_locals s' = cs_locals s /\ cs_regtop s' = cs_regtop s.
+Proof. exact CompFacts.constIndex_spec. Qed.
+Print Assumptions constIndex_spec.
+
+(* constant folding agrees with the direct semantics *)
+Theorem cfold_sound : forall e g look, cfold e = Some (Some g) -> CompFacts.pevr look e = PV (VNum g).
+Proof. exact CompFacts.cfold_pevr. Qed.
+Print Assumptions cfold_sound.
